@@ -264,11 +264,14 @@ Proof.
     intros _. apply neg_not_alive; auto. lia.
 Qed.
 
-Lemma mcall_objs w c m1 r scs : Inv w -> mcall (view_of w) (ms w) c = (m1, r, scs) ->
+Lemma obj_ok_with_shared w x i : obj_ok w x i -> obj_ok w (with_shared x) i.
+Proof. intros (H1 & H2 & H3 & H4 & H5). unfold obj_ok; cbn [with_shared opid ostart ogone oreused ohash ident]. splits; auto; lia. Qed.
+
+Lemma mcall_objs w c m1 r scs : Inv w -> (forall o hw ok, c <> Copy o hw ok) -> mcall (view_of w) (ms w) c = (m1, r, scs) ->
   exists upd news, objs m1 = upd ++ news /\ Forall2 (obj_ok w) upd (ginc w) /\
                    Forall (fresh w) news.
 Proof.
-  intros I H. pose proof (inv_objs _ I) as F.
+  intros I NC H. pose proof (inv_objs _ I) as F.
   assert (Same : forall m, objs m = objs (ms w) ->
           exists upd news, objs m = upd ++ news /\ Forall2 (obj_ok w) upd (ginc w) /\
                            Forall (fresh w) news).
@@ -279,7 +282,7 @@ Proof.
                            Forall (fresh w) news).
   { intros m o x1 x i Ex Ei O1 E. exists (upd_nth o x1 (objs (ms w))), []. rewrite app_nil_r.
     splits; auto. eapply upd_objs_ok; eauto. }
-  destruct c as [pid|pid|o|o s|o|o|o|o|o|a b|a b|o s|o|o| | |o vis| |g|o vis]; cbn [mcall] in H.
+  destruct c as [pid|pid|o|o s|o|o|o|o|o|a b|a b|o s|o|o| | |o vis| |g|o vis|o hw ok|o ok]; cbn [mcall] in H.
   - (* New *)
     destruct (new_obj (view_of w) pid) as [y|e|] eqn:N; inversion H; subst; auto.
     exists (objs (ms w)), [y]. cbn [with_objs objs]. splits; auto. constructor; [left; eauto|constructor].
@@ -308,6 +311,7 @@ Proof.
   - (* OneshotEnter *)
     destruct (nth_error (objs (ms w)) o) as [x|] eqn:Ex; [|inversion H; subst; auto].
     destruct (Forall2_nth_l _ _ _ _ _ F Ex) as (i & Ei & O).
+    destruct (oshared x); [inversion H; subst; auto|].
     inversion H; subst. apply (Upd _ o (oneshot_enter x) x i); auto. apply oneshot_enter_obj; auto.
   - (* OneshotExit *)
     destruct (nth_error (objs (ms w)) o) as [x|] eqn:Ex; [|inversion H; subst; auto].
@@ -317,6 +321,7 @@ Proof.
   - (* AsDict *)
     destruct (nth_error (objs (ms w)) o) as [x|] eqn:Ex; [|inversion H; subst; auto].
     destruct (Forall2_nth_l _ _ _ _ _ F Ex) as (i & Ei & O).
+    destruct (oshared x); [inversion H; subst; auto|].
     pose proof (do_ppid_obj w (oneshot_enter x) i I (oneshot_enter_obj w x i O)) as O1.
     destruct (do_ppid (view_of w) (oneshot_enter x)) as [[x1 r1] add]. cbn [fst] in O1.
     destruct (oneshot_exit x1) as [x2|] eqn:Eo; inversion H; subst; auto.
@@ -402,13 +407,37 @@ Proof.
       inversion H; subst. apply (Upd _ o x2 x i); auto.
     + destruct e; inversion H; subst; apply (Upd _ o x1 x i); auto.
     + inversion H; subst. apply (Upd _ o x1 x i); auto.
+  - (* Copy *)
+    exfalso. eapply NC; reflexivity.
+  - (* PickleDump *)
+    destruct (nth_error (objs (ms w)) o); inversion H; subst; auto.
+Qed.
+
+(* a copy: the original is marked, the copy appended; both stay bound to the original's incarnation *)
+Lemma mcall_copy_objs w o hw ok m1 r scs : Inv w -> mcall (view_of w) (ms w) (Copy o hw ok) = (m1, r, scs) ->
+  exists upd news, objs m1 = upd ++ news /\ Forall2 (obj_ok w) upd (ginc w) /\
+                   Forall2 (obj_ok w) news (new_ghosts w (Copy o hw ok) news).
+Proof.
+  intros I H. pose proof (inv_objs _ I) as F. cbn [mcall] in H.
+  assert (Same : objs m1 = objs (ms w) -> exists upd news, objs m1 = upd ++ news /\ Forall2 (obj_ok w) upd (ginc w) /\
+                   Forall2 (obj_ok w) news (new_ghosts w (Copy o hw ok) news)).
+  { intros E. exists (objs (ms w)), []. rewrite app_nil_r. splits; auto. constructor. }
+  destruct (nth_error (objs (ms w)) o) as [x|] eqn:Ex; [|inversion H; subst; auto].
+  destruct (Forall2_nth_l _ _ _ _ _ F Ex) as (i & Ei & O).
+  destruct ok; [|destruct hw; inversion H; subst; auto].
+  destruct (oshot x); [|inversion H; subst; auto].
+  inversion H; subst. cbn [with_objs objs].
+  exists (upd_nth o (with_shared x) (objs (ms w))), [with_shared x]. splits; auto.
+  - eapply upd_objs_ok; eauto; apply obj_ok_with_shared; auto.
+  - cbn [new_ghosts map]. constructor; [|constructor].
+    rewrite (nth_error_nth_default _ _ _ (-1) Ei). apply obj_ok_with_shared; auto.
 Qed.
 
 Lemma cstep_eq w c :
   cstep w c =
   ({| table := table w; hist := hist w; nextinc := nextinc w; btime := btime w;
       ms := fst (fst (mcall (view_of w) (ms w) c));
-      ginc := ginc w ++ map (ghost_of w)
+      ginc := ginc w ++ new_ghosts w c
                             (skipn (length (objs (ms w))) (objs (fst (fst (mcall (view_of w) (ms w) c)))));
       denied := denied w |},
    snd (fst (mcall (view_of w) (ms w) c)),
@@ -419,7 +448,7 @@ Lemma step_call w c :
   step w (EC c) =
   ({| table := table w; hist := hist w; nextinc := nextinc w; btime := btime w;
       ms := fst (fst (mcall (view_of w) (ms w) c));
-      ginc := ginc w ++ map (ghost_of w)
+      ginc := ginc w ++ new_ghosts w c
                             (skipn (length (objs (ms w))) (objs (fst (fst (mcall (view_of w) (ms w) c)))));
       denied := denied w |},
    snd (fst (mcall (view_of w) (ms w) c)),
@@ -430,15 +459,25 @@ Lemma cstep_inv w c : Inv w -> Inv (fst (fst (cstep w c))).
 Proof.
   intros I. rewrite cstep_eq. cbn [fst].
   destruct (mcall (view_of w) (ms w) c) as [[m1 r] scs] eqn:M. cbn [fst snd].
-  destruct (mcall_objs w c m1 r scs I M) as (upd & news & E & Fu & Fn).
+  assert (G : exists upd news, objs m1 = upd ++ news /\ Forall2 (obj_ok w) upd (ginc w) /\
+                               Forall2 (obj_ok w) news (new_ghosts w c news)).
+  { assert (D : (exists o hw ok, c = Copy o hw ok) \/ (forall o hw ok, c <> Copy o hw ok)).
+    { destruct c; try (right; intros; discriminate). left; eauto. }
+    destruct D as [(o & hw & ok & ->)|NC].
+    - eapply mcall_copy_objs; eauto.
+    - destruct (mcall_objs w c m1 r scs I NC M) as (upd & news & E & Fu & Fn).
+      exists upd, news. splits; auto.
+      assert (NG : new_ghosts w c news = map (ghost_of w) news) by (destruct c; try reflexivity; exfalso; eapply NC; reflexivity).
+      rewrite NG. clear E NG. induction Fn as [|y news Hy Fn IH]; cbn [map]; constructor; auto.
+      apply (fresh_ok w y I Hy). }
+  destruct G as (upd & news & E & Fu & Fn).
   assert (Len : length upd = length (objs (ms w))).
   { rewrite (Forall2_len _ _ _ Fu). symmetry. apply (Forall2_len _ _ _ (inv_objs _ I)). }
   rewrite E, <- Len, skipn_app_exact.
   constructor; cbn [table hist nextinc ms ginc denied]; try apply I.
   rewrite E. apply Forall2_app.
   - eapply Forall2_impl; [|exact Fu]. intros x i O. eapply obj_ok_ext; [| |exact O]; reflexivity.
-  - clear E. induction Fn as [|y news Hy Fn IH]; cbn [map]; constructor; auto.
-    eapply obj_ok_ext; [| |apply (fresh_ok w y I Hy)]; reflexivity.
+  - eapply Forall2_impl; [|exact Fn]. intros x i O. eapply obj_ok_ext; [| |exact O]; reflexivity.
 Qed.
 
 Lemma call_inv w c : Inv w -> Inv (next w (EC c)).
